@@ -891,21 +891,27 @@ Section Total.
     { intros i Hi Hids o' Hz. apply zfind_Some in Hz.
       destruct (i_all _ _ _ _ _ _ _ I _ _ Hz) as (Hp' & Hnn' & f1 & E1 & Ei1).
       destruct (shape_some _ _ _ _ (i_shape _ _ _ _ _ _ _ I) E1) as (f10 & E10 & _).
-      unfold ids_okb in Hids. apply andb_true_iff in Hids. destruct Hids as [Hids Hlt]. apply andb_true_iff in Hids. destruct Hids as [_ Hnd0].
-      rewrite forallb_forall in Hlt.
-      assert (Hcase : (o_id f10 = Some i /\ i <> 0) \/ (n0 <= i < w_next w)).
+      unfold ids_okb in Hids. apply andb_true_iff in Hids. destruct Hids as [Hnd0 Hlt].
+      assert (Hlt' : (forall j, In j (explicit_ids h0) -> j < n0) \/ (forall x fx, hget h0 x = Some fx -> o_id fx <> None)).
+      { apply orb_true_iff in Hlt. destruct Hlt as [Hlt|Hlt]; rewrite forallb_forall in Hlt.
+        - left. intros j Hj. pose proof (Hlt j Hj). lia.
+        - right. intros x fx Hx Hn. pose proof (Hlt _ (hget_In _ _ _ Hx)) as Hb. unfold has_idb in Hb. cbn [snd] in Hb. rewrite Hn in Hb. discriminate. }
+      clear Hlt.
+      assert (Hcase : (o_id f10 = Some i /\ i <> 0) \/ (o_id f10 = None /\ n0 <= i < w_next w)).
       { destruct (o_id f10) as [j|] eqn:Ej.
         - left. destruct (i_keep _ _ _ _ _ _ _ I o' f10 j E10 Ej) as (f2 & E2 & Ej2). rewrite E1 in E2. inversion E2; subst f2.
           assert (j = i) by congruence. subst j. split; [reflexivity|]. intros ->. apply Hnn'. exists f10. split; [exact E10|].
           unfold is_null_id. rewrite Ej. reflexivity.
-        - right. exact (i_fresh _ _ _ _ _ _ _ I i o' f10 Hz E10 Ej). }
+        - right. split; [reflexivity|]. exact (i_fresh _ _ _ _ _ _ _ I i o' f10 Hz E10 Ej). }
       destruct Hi as [Hi|[Hi ->]].
       - assert (Hi0 : i <> 0). { intros ->. unfold is_null_id in En. rewrite Hi in En. discriminate. }
-        destruct Hcase as [[Hc1 _]|Hc2].
+        destruct Hcase as [[Hc1 _]|[Hc1 Hc2]].
         + symmetry. eapply (explicit_ids_inj h0 Hnd0 o o' f f10 i); eassumption.
-        + pose proof (Hlt i (explicit_ids_In _ _ _ _ Eg0 Hi Hi0)) as Hb. lia.
-      - pose proof (i_next _ _ _ _ _ _ _ I) as Hn.
-        destruct Hcase as [[Hc1 Hc2]|Hc2]; [|lia].
+        + destruct Hlt' as [Hlt|Hall]; [|exfalso; exact (Hall _ _ E10 Hc1)].
+          pose proof (Hlt i (explicit_ids_In _ _ _ _ Eg0 Hi Hi0)) as Hb. lia.
+      - destruct Hlt' as [Hlt|Hall]; [|exfalso; exact (Hall _ _ Eg0 Hi)].
+        pose proof (i_next _ _ _ _ _ _ _ I) as Hn.
+        destruct Hcase as [[Hc1 Hc2]|[_ Hc2]]; [|lia].
         pose proof (Hlt _ (explicit_ids_In _ _ _ _ E10 Hc1 Hc2)) as Hb. lia. }
     unfold assign_id. cbn [w_heap w_next w_all w_queued w_open].
     destruct (o_id f) as [i|] eqn:Ei.
